@@ -293,9 +293,8 @@ class AdvertisementDataAccumulator:
                 if result := Advertisement.from_advertising_report(report):
                     result.is_connectable = self.last_advertisement.is_connectable
                     result.is_scannable = True
-                    result.data = AdvertisingData.from_bytes(
-                        self.last_data + report.data
-                    )
+                    result.data_bytes = self.last_data + report.data
+                    result.data = AdvertisingData.from_bytes(result.data_bytes)
             self.last_data = b''
         else:
             if (
